@@ -94,6 +94,29 @@ theorem positiveCoin_before_fix_fails_at_witness :
   intro h
   exact h [0x00] 0 [] rfl rfl
 
+/-- only a plain unsigned head is ever accepted as a `PositiveCoin`: whatever follows it, an input
+    that starts with any other initial byte (negative int, byte/text string, array, map, **tag** —
+    e.g. an RFC 8949 bignum `c2 40` —, simple, float, break) is rejected. So there is no alternative
+    encoding through which a zero (or anything else) could enter. -/
+theorem positiveCoin_accepts_only_uint_heads (b : UInt8) (rest : Bytes) (hb : 0x1b < b.toNat) :
+    ∀ n r, PositiveCoin.dec (b :: rest) ≠ .ok n r := by
+  intro n r h
+  have hb' : ¬ b.toNat ≤ 0x1b := by omega
+  simp only [PositiveCoin.dec, Minicbor.u64, Minicbor.uintN, hb', if_false] at h
+  simp [Res.andThen] at h
+
+/-- the same for `NonZeroInt`: only major types 0 and 1 with a width ≤ 8 bytes are accepted -/
+theorem nonZeroInt_accepts_only_int_heads (b : UInt8) (rest : Bytes)
+    (hb : ¬ b.toNat ≤ 0x1b) (hb2 : ¬ (0x20 ≤ b.toNat ∧ b.toNat ≤ 0x3b)) :
+    ∀ i r, NonZeroInt.dec (b :: rest) ≠ .ok i r := by
+  intro i r h
+  simp only [NonZeroInt.dec, Minicbor.i64, Minicbor.sintN, hb, hb2, if_false] at h
+  simp [Res.andThen] at h
+
+example : PositiveCoin.dec [0xc2, 0x40] = .err .typ := by decide +kernel
+example : PositiveCoin.dec [0xc2, 0x41, 0x00] = .err .typ := by decide +kernel
+example : NonZeroInt.dec [0xc3, 0x40] = .err .typ := by decide +kernel
+
 /-! ## non-vacuity -/
 
 example : PositiveCoin.dec [0x01] = .ok 1 [] := rfl
